@@ -34,6 +34,9 @@ def valid(inp):
             elif kind == "tick":
                 if ev.get("ab", "") not in ABORTS or ev.get("now", 0) < 1:
                     return False
+            elif kind == "resume":
+                if ev.get("now", 0) < 1:
+                    return False
             elif kind == "tpflip":
                 if not (0 <= ev.get("p", 0) < ntp):
                     return False
@@ -105,7 +108,7 @@ PROP = Prop(
     pid="C03",
     coq_props="theories/C03/Props.v",
     coq_run=["theories/C03/Run.v", "theories/C03/RunCompose.v"],
-    streams=[Stream("delta", "c03delta", n_quick=800, n_thorough=5000, shards_thorough=4, valid=valid, classify=classify, shrinker=shrinker,
+    streams=[Stream("delta", "c03delta", n_quick=650, n_thorough=5000, shards_thorough=4, valid=valid, classify=classify, shrinker=shrinker,
                     what="a real Peer (InitAllTables) against a scripted backend whose hosts/services mutate; data.UpdateDelta(from,until), "
                          "periodicUpdate, periodicTimeperiodsUpdate single stepped with explicit windows, shifted lastFull*Update and connection "
                          "errors after the status/hosts/services query; GET hosts/services/timeperiods after every step vs C03.Model.step, plus the "
